@@ -413,9 +413,22 @@ def op_setnorm(st, o):
             return "skipped"
         st.stats.probe("norm_from_field" + ("_other_mesh" if src.box is not h.box else ""))
     fns = []
-    val = lib_spec(st, spec, mm, 1, None, fns)
-    target = eval_spec(st, spec, mm, 1, None)
     before = h.fm.array
+    if spec["t"] == "ownview":
+        # the per-cell norm is a view of the field's own live array (one component, or a scalar field's array
+        # itself): the lengths asked for are the values that component has when the assignment is made
+        c = spec["c"] % h.fm.nvdim
+        if before.dtype.kind != "f" or np.any(before[..., c] < 0):
+            return "skipped"
+        live = h.obj.array
+        val = live[..., c] if spec.get("squeeze") else live[..., c:c + 1]
+        if not np.shares_memory(val, live):
+            return "skipped"
+        target = np.array(before[..., c:c + 1], dtype=float, copy=True)
+        st.stats.probe("norm_from_view_of_own_array")
+    else:
+        val = lib_spec(st, spec, mm, 1, None, fns)
+        target = eval_spec(st, spec, mm, 1, None)
     want = norm_model(before, target)
     res = sut(setattr, h.obj, "norm", val)
     expect_ok(res, f"norm = <{spec['t']}>")
@@ -449,6 +462,19 @@ def op_setnorm(st, o):
         h.fm.array = np.array(got, copy=True)
     h.meta["norm_set"] = True
     return "norm-set"
+
+
+@op("F.absarray")
+def op_absarray(st, o):
+    """field.array = abs(field.array) through the array setter (all components non-negative afterwards)."""
+    h = st.h[o["on"]]
+    if h.kind != "F" or h.fm.array.dtype.kind != "f" or not np.all(np.isfinite(h.fm.array)):
+        return "skipped"
+    new = np.abs(h.fm.array)
+    res = sut(setattr, h.obj, "array", new.copy())
+    expect_ok(res, "field.array = abs(field.array)")
+    h.fm.array = new
+    return "abs"
 
 
 @op("F.nudge")
